@@ -7,6 +7,11 @@ ROOT = os.path.dirname(HERE)
 
 # property -> (level category, technique, level text, level note, design ref)
 CHECKS = {
+    "C18": ("fault_enumeration",
+            "derivation catalogue per decoder executed under panic capture, per-call thread-CPU budget with a CPU-based hang watcher, and serial allocation sampling",
+            "For each of ~55 decoders of untrusted bytes (incl. the 16 TLS handshake message decoders, session state and ticket decryption through the verif hooks) takes valid encodings produced by the library and derives every truncation, single-byte substitutions from {00,01,7f,80,ff,b^1,b^80} (all seven in thorough), every TLV length rewritten to {0,len-1,len+1,0x80,0x84ffffffff,0x847fffffff}, universal tag swaps, BER nesting to depth 10^4 (definite, indefinite, unterminated), empty and random inputs; each call runs in a child process with recover(), a thread-CPU budget of 2 s + 1 us/byte, and a watcher that turns 20 s of CPU in one call into a verdict; allocations are sampled serially against 64*len + 8 MiB.",
+            "Trusted: Go runtime (recover, getrusage, MemStats). Bytes encoding a password-stretching iteration count are not mutated (exempt by the property).",
+            "DESIGN.md §5 C18"),
     "C10": ("exploration",
             "reference path validator over generator ground truth (no cryptography, none of gmsm's parser) compared with Verify on generated PKI topologies; every returned chain checked link by link",
             "Generates PKI topologies (roots, re-issued/cross-signed/looping intermediates, same-name impostor keys, leaves) that are valid except for 0-4 injected faults (expired, not yet valid, non-CA, no basic constraints, path length, key usage, name constraints, corrupted signature, impostor, EKU, critical extension, missing from pool) and queries (time incl. boundary instants, host classes, usages, pool insertion order) perturbed in one dimension; Verify must return a chain exactly when the reference finds one inside the region the statement determines (32 interpretation variants must agree), and every returned chain is checked against ground truth.",
